@@ -18,9 +18,11 @@ import (
 	"flag"
 	"fmt"
 	"os"
+	"runtime"
 	"strconv"
 	"strings"
 	"sync"
+	"sync/atomic"
 	"time"
 
 	"github.com/ThreeDotsLabs/watermill"
@@ -52,22 +54,36 @@ func (l *evlog) take() []string {
 
 // scriptSub is a subscriber whose single feed channel the harness writes to.
 type scriptSub struct {
-	in      chan *message.Message
+	mu      sync.Mutex
+	ins     map[string]chan *message.Message // one feed channel per topic (handlers may share the subscriber object)
 	closing chan struct{}
 	once    sync.Once
 }
 
 func newScriptSub() *scriptSub {
-	return &scriptSub{in: make(chan *message.Message), closing: make(chan struct{})}
+	return &scriptSub{ins: map[string]chan *message.Message{}, closing: make(chan struct{})}
+}
+
+// feed returns the channel the harness writes messages for the given topic to
+func (s *scriptSub) feed(topic string) chan *message.Message {
+	s.mu.Lock()
+	defer s.mu.Unlock()
+	ch, ok := s.ins[topic]
+	if !ok {
+		ch = make(chan *message.Message)
+		s.ins[topic] = ch
+	}
+	return ch
 }
 
 func (s *scriptSub) Subscribe(ctx context.Context, topic string) (<-chan *message.Message, error) {
+	in := s.feed(topic)
 	out := make(chan *message.Message)
 	go func() {
 		defer close(out)
 		for {
 			select {
-			case m := <-s.in:
+			case m := <-in:
 				select {
 				case out <- m:
 				case <-ctx.Done():
@@ -161,9 +177,14 @@ func (w *wrapSub) Close() error { return w.inner.Close() }
 
 func recSubDec(l *evlog, id int) message.SubscriberDecorator {
 	f := func(m *message.Message) {
+		// c: the message carries the context of the handler it was sent to (the subscribe topic is never empty here; the
+		// handler name may be); n: no handler context yet; w: ANOTHER handler's context
 		c := "n"
-		if message.SubscribeTopicFromCtx(m.Context()) != "" { // the subscribe topic is never empty here; the handler name may be
+		if t := message.SubscribeTopicFromCtx(m.Context()); t != "" {
 			c = "c"
+			if t != m.Metadata.Get("topic") {
+				c = "w"
+			}
 		}
 		l.add("s" + strconv.Itoa(id) + c)
 	}
@@ -176,6 +197,7 @@ func recSubDec(l *evlog, id int) message.SubscriberDecorator {
 type hstate struct {
 	idx    int
 	name   string
+	obj    message.Subscriber // what AddHandler gets: the raw scripted subscriber or the application-decorated shared one
 	hasPub bool
 	sub    *scriptSub
 	h      *message.Handler
@@ -193,6 +215,11 @@ func ids(s string) ([]int, bool) {
 	return out, true
 }
 
+type appSub struct {
+	core *scriptSub
+	obj  message.Subscriber
+}
+
 // runCase executes one registration program against a fresh Router.
 func runCase(req string) (obs string) {
 	toks := strings.Fields(req)
@@ -208,6 +235,7 @@ func runCase(req string) (obs string) {
 	ctx, cancel := context.WithCancel(context.Background())
 	defer cancel()
 	var hs []*hstate
+	apps := map[int]*appSub{}
 	find := func(i int) *hstate {
 		for _, h := range hs {
 			if h.idx == i {
@@ -262,9 +290,10 @@ func runCase(req string) (obs string) {
 				}
 				msgN++
 				m := message.NewMessage("m"+strconv.Itoa(msgN), []byte("x"))
+				m.Metadata.Set("topic", "in-"+h.name)
 				l.take()
 				select {
-				case h.sub.in <- m:
+				case h.sub.feed("in-" + h.name) <- m:
 				case <-time.After(settleTimeout):
 					return "timeout-send"
 				}
@@ -284,6 +313,96 @@ func runCase(req string) (obs string) {
 			} else {
 				blocks = append(blocks, strings.Join(entries, ";"))
 			}
+		case strings.HasPrefix(t, "G"):
+			// a RouterPlugin that registers when Run executes it
+			var acts []func(*message.Router)
+			for _, it := range strings.Split(t[1:], "+") {
+				if len(it) < 2 {
+					return "bad-op"
+				}
+				is, ok := ids(it[1:])
+				if !ok {
+					return "bad-op"
+				}
+				switch it[0] {
+				case 'R':
+					acts = append(acts, func(r *message.Router) {
+						for _, i := range is {
+							r.AddMiddleware(recMw(l, i))
+						}
+					})
+				case 'P':
+					acts = append(acts, func(r *message.Router) {
+						for _, i := range is {
+							r.AddPublisherDecorators(recPubDec(l, i))
+						}
+					})
+				case 'S':
+					acts = append(acts, func(r *message.Router) {
+						for _, i := range is {
+							r.AddSubscriberDecorators(recSubDec(l, i))
+						}
+					})
+				default:
+					return "bad-op"
+				}
+			}
+			r.AddPlugin(func(r *message.Router) error {
+				for _, a := range acts {
+					a(r)
+				}
+				return nil
+			})
+		case strings.HasPrefix(t, "C"):
+			// overlapping Handler.AddMiddleware calls: one goroutine per `|`-separated script, released together
+			type call struct {
+				h   *hstate
+				mws []message.HandlerMiddleware
+			}
+			var scripts [][]call
+			for _, g := range strings.Split(t[1:], "|") {
+				var sc []call
+				for _, c := range strings.Split(g, "+") {
+					if !strings.HasPrefix(c, "H") {
+						return "bad-op"
+					}
+					p := strings.SplitN(c[1:], ":", 2)
+					if len(p) != 2 {
+						return "bad-op"
+					}
+					hi, err := strconv.Atoi(p[0])
+					is, ok := ids(p[1])
+					if err != nil || !ok || find(hi) == nil {
+						return "bad-op"
+					}
+					mws := make([]message.HandlerMiddleware, len(is))
+					for k, i := range is {
+						mws[k] = recMw(l, i)
+					}
+					sc = append(sc, call{find(hi), mws})
+				}
+				scripts = append(scripts, sc)
+			}
+			var wg sync.WaitGroup
+			var ready int32
+			n := int32(len(scripts))
+			for _, sc := range scripts {
+				sc := sc
+				wg.Add(1)
+				go func() {
+					defer wg.Done()
+					atomic.AddInt32(&ready, 1)
+					for spins := 0; atomic.LoadInt32(&ready) < n; spins++ {
+						if spins > 1000 {
+							runtime.Gosched()
+						}
+					}
+					for _, c := range sc {
+						c.h.h.AddMiddleware(c.mws...)
+					}
+				}()
+			}
+			wg.Wait()
 		case strings.HasPrefix(t, "R"):
 			is, ok := ids(t[1:])
 			if !ok {
@@ -311,6 +430,7 @@ func runCase(req string) (obs string) {
 			find(hi).h.AddMiddleware(mws...)
 		case strings.HasPrefix(t, "A") && len(t) >= 3:
 			spec, nameTok, named := strings.Cut(t, "=")
+			spec, appTok, shared := strings.Cut(spec, "@")
 			if len(spec) < 3 {
 				return "bad-op"
 			}
@@ -335,15 +455,45 @@ func runCase(req string) (obs string) {
 					return "bad-op" // AddHandler panics on a duplicate name; not what this harness is about
 				}
 			}
-			h := &hstate{idx: hi, name: name, hasPub: kind == 'p', sub: newScriptSub()}
-			if h.hasPub {
-				h.h = r.AddHandler(name, "in-"+name, h.sub, "out-"+name, &recPub{l}, func(msg *message.Message) ([]*message.Message, error) {
+			h := &hstate{idx: hi, name: name, hasPub: kind == 'p'}
+			if shared {
+				// the application wrapped its subscriber itself in a transform decorator and gives that ONE object to
+				// every handler of group g
+				g, err := strconv.Atoi(appTok)
+				if err != nil || g < 0 {
+					return "bad-op"
+				}
+				a, ok := apps[g]
+				if !ok {
+					core := newScriptSub()
+					obj, err := message.MessageTransformSubscriberDecorator(func(*message.Message) { l.add("a" + strconv.Itoa(g)) })(core)
+					if err != nil {
+						return "bad-op"
+					}
+					a = &appSub{core, obj}
+					apps[g] = a
+				}
+				h.sub, h.obj = a.core, a.obj
+			} else {
+				h.sub = newScriptSub()
+				h.obj = h.sub
+			}
+			// the handler function: "h", or "hx" when the message carries another handler's context values
+			mark := func(msg *message.Message) {
+				if message.SubscribeTopicFromCtx(msg.Context()) != "in-"+name || message.HandlerNameFromCtx(msg.Context()) != name {
+					l.add("hx")
+				} else {
 					l.add("h")
+				}
+			}
+			if h.hasPub {
+				h.h = r.AddHandler(name, "in-"+name, h.obj, "out-"+name, &recPub{l}, func(msg *message.Message) ([]*message.Message, error) {
+					mark(msg)
 					return []*message.Message{message.NewMessage("o-"+msg.UUID, []byte("y"))}, nil
 				})
 			} else {
-				h.h = r.AddNoPublisherHandler(name, "in-"+name, h.sub, func(msg *message.Message) error {
-					l.add("h")
+				h.h = r.AddNoPublisherHandler(name, "in-"+name, h.obj, func(msg *message.Message) error {
+					mark(msg)
 					return nil
 				})
 			}
@@ -484,11 +634,37 @@ func randomProg(rng *wh.Rng, maxLen int) string {
 	_ = nUnusual
 	var addedList []int
 	nDecP, nDecS := 0, 0
+	sharedSubs := rng.Intn(4) == 0
+	plugin := func() string { // a RouterPlugin registering 1..3 things when Run executes it
+		var items []string
+		for k, n := 0, 1+rng.Intn(3); k < n; k++ {
+			switch rng.Intn(3) {
+			case 0:
+				items = append(items, "R"+idList(&next, 1+rng.Intn(2)))
+			case 1:
+				if nDecP < 5 {
+					nDecP++
+					items = append(items, "P"+idList(&next, 1))
+				}
+			case 2:
+				if nDecS < 5 {
+					nDecS++
+					items = append(items, "S"+idList(&next, 1))
+				}
+			}
+		}
+		if len(items) == 0 {
+			items = []string{"R" + idList(&next, 1)}
+		}
+		return "G" + strings.Join(items, "+")
+	}
 	for ph := 0; ph < phases; ph++ {
 		n := rng.Intn(maxLen/phases + 2)
 		for i := 0; i < n; i++ {
 			k := rng.Intn(10)
 			switch {
+			case k < 3 && rng.Intn(5) == 0:
+				toks = append(toks, plugin())
 			case k < 3:
 				toks = append(toks, "R"+idList(&next, 1+rng.Intn(3)/2))
 			case k < 6 && len(addedList) > 0:
@@ -517,7 +693,11 @@ func randomProg(rng *wh.Rng, maxLen int) string {
 						nUnusual++
 					}
 				}
-				toks = append(toks, "A"+strconv.Itoa(h)+rng.Pick("p", "p", "n")+name)
+				app := ""
+				if sharedSubs && rng.Intn(3) != 0 { // the application-decorated subscriber object 1 (or 2), shared
+					app = "@" + strconv.Itoa(1+rng.Intn(5)/4)
+				}
+				toks = append(toks, "A"+strconv.Itoa(h)+rng.Pick("p", "p", "n")+app+name)
 			case k == 8 && nDecP < 5:
 				c := 1 + rng.Intn(2)
 				if nDecP+c > 5 {
@@ -544,6 +724,101 @@ func randomProg(rng *wh.Rng, maxLen int) string {
 	return "chain " + strings.Join(toks, " ")
 }
 
+// the SAME application-decorated subscriber object given to two or three handlers, with router subscriber decorators:
+// every handler's messages pass the application's transform, then each registered decorator exactly once, in order,
+// and carry that handler's context values only
+func sharedSubCases(emit func(string, string)) {
+	progs := []string{
+		"A0p@1 A1p@1 RUN",
+		"A0p@1 A1n@1 S1 RUN",
+		"S1,2 A0p@1 A1p@1 A2n@1 RUN",
+		"A0p@1 S1 A1p@1 S2 R3 H0:4 H1:5 RUN",
+		"S1 A0p@1 RUN S2 A1p@1 A2p RUN",
+		"S1,2 P3 A0p@1 A1n@2 A2p@1 A3p@2 RUN",
+		"GS1+S2 A0p@1 A1p@1 RUN",
+		"A0p@1=- A1p@1=" + wh.HexS("h0") + " S1 S2 H0:3 RUN",
+	}
+	for _, p := range progs {
+		emit("chain "+p, "shared_decorated_subscriber")
+	}
+}
+
+// RouterPlugins that register middlewares / decorators when Run starts: they act on every handler added before Run
+// (plugins are loaded before the handlers are started), never on their own later (a plugin added after Run is not run)
+func pluginCases(emit func(string, string)) {
+	progs := []string{
+		"A0p GR1 RUN",
+		"A0p GP1 RUN",
+		"A0p GS1 RUN",
+		"GR1+P2+S3 A0p A1n RUN",
+		"A0p R1 GR2 R3 H0:4 GP5 P6 GS7 S8 RUN",
+		"GR1 GR2+R3 A0p H0:4 RUN A1p RUN",
+		"A0p RUN GR1+P2+S3 A1p RUN",
+		"GP1 A0p RUN P2 A1p RUN",
+		"A0n GS1+S2,3 RUN RUN",
+	}
+	for _, p := range progs {
+		emit("chain "+p, "plugins")
+	}
+}
+
+// overlapping Handler.AddMiddleware calls from 2..4 goroutines (to the same and to different handlers) before Run,
+// between sequential registrations; the observation is checked, not predicted (cchain)
+func concurrentProg(rng *wh.Rng) string {
+	next := 0
+	nH := 1 + rng.Intn(3)
+	var toks []string
+	for h := 0; h < nH; h++ {
+		toks = append(toks, "A"+strconv.Itoa(h)+rng.Pick("p", "n"))
+	}
+	seq := func() {
+		for k, n := 0, rng.Intn(3); k < n; k++ {
+			if rng.Bool() {
+				toks = append(toks, "R"+idList(&next, 1))
+			} else {
+				toks = append(toks, "H"+strconv.Itoa(rng.Intn(nH))+":"+idList(&next, 1+rng.Intn(2)))
+			}
+		}
+	}
+	seq()
+	nG := 2 + rng.Intn(3)
+	calls := 2
+	if nG == 2 {
+		calls = 3
+	}
+	gs := make([]string, nG)
+	for g := range gs {
+		var cs []string
+		for k, n := 0, 1+rng.Intn(calls); k < n; k++ {
+			cs = append(cs, "H"+strconv.Itoa(rng.Intn(nH))+":"+idList(&next, 1+rng.Intn(2)))
+		}
+		gs[g] = strings.Join(cs, "+")
+	}
+	toks = append(toks, "C"+strings.Join(gs, "|"))
+	seq()
+	toks = append(toks, "RUN")
+	return "chain " + strings.Join(toks, " ")
+}
+
+func hasConc(req string) bool {
+	for _, t := range strings.Fields(req) {
+		if strings.HasPrefix(t, "C") {
+			return true
+		}
+	}
+	return false
+}
+
+// emitCase writes one case; programs with overlapping calls carry their observation in the request (the model checks
+// that some serialisation explains it) and the expected answer is "consistent"
+func emitCase(out *wh.Out, req, obs string) {
+	if hasConc(req) {
+		out.Case("c"+req+" @@ "+obs, "consistent")
+		return
+	}
+	out.Case(req, obs)
+}
+
 type job struct {
 	req, tag string
 }
@@ -558,16 +833,20 @@ func main() {
 	out := wh.NewOut(a.Out)
 	defer out.Close()
 	if a.Replay != "" {
-		r := runJobs([]string{a.Replay})[0]
+		req := a.Replay
+		if strings.HasPrefix(req, "cchain ") { // a recorded observation is part of the request: run the program again
+			req, _, _ = strings.Cut(req[1:], " @@ ")
+		}
+		r := runJobs([]string{req})[0]
 		if r == "" {
 			r = "not-run"
 		}
-		out.Case(a.Replay, r)
+		emitCase(out, req, r)
 		return
 	}
-	maxLen, maxDec, nRandom, randLen := 6, 5, 2500, 20
+	maxLen, maxDec, nRandom, randLen, nConc := 6, 5, 2500, 20, 400
 	if a.Thorough() {
-		maxLen, nRandom = 7, 40000
+		maxLen, nRandom, nConc = 7, 40000, 6000
 	}
 	var jobs []job
 	emit := func(req, tag string) { jobs = append(jobs, job{req, tag}) }
@@ -577,6 +856,8 @@ func main() {
 	enumSeqs(maxLen-2, [2]string{"=-", "=" + wh.HexS("h0")}, "enum_names", emit)
 	enumSeqs(maxLen-2, [2]string{"=" + wh.HexS("in-h1"), "=-"}, "enum_names", emit)
 	enumDecs(maxDec, emit)
+	sharedSubCases(emit)
+	pluginCases(emit)
 	rng := wh.NewRng(a.Seed)
 	for i := 0; i < nRandom; i++ {
 		l := randLen
@@ -584,6 +865,9 @@ func main() {
 			l = 8
 		}
 		emit(randomProg(rng, l), "random")
+	}
+	for i := 0; i < nConc; i++ {
+		emit(concurrentProg(rng), "concurrent_registration")
 	}
 	// cases are independent (own router, own log): run them on a few workers, write in generation order
 	reqs := make([]string, len(jobs))
@@ -597,7 +881,7 @@ func main() {
 			skipped++
 			continue
 		}
-		out.Case(j.req, res[i])
+		emitCase(out, j.req, res[i])
 		out.Count(j.tag)
 		f := strings.Fields(j.req)
 		out.Add("ops.total", len(f)-1)
@@ -612,6 +896,10 @@ func main() {
 				out.Count("ops.handlerMw")
 			case t[0] == 'A':
 				spec, nm, named := strings.Cut(t, "=")
+				if sp, _, sh := strings.Cut(spec, "@"); sh {
+					spec = sp
+					out.Count("handlers.shared_decorated_subscriber")
+				}
 				out.Count("ops.addHandler" + spec[len(spec)-1:])
 				if named {
 					out.Count("handlers.explicit_name")
@@ -619,6 +907,12 @@ func main() {
 						out.Count("handlers.empty_name")
 					}
 				}
+			case t[0] == 'G':
+				out.Count("ops.addPlugin")
+			case t[0] == 'C':
+				out.Count("ops.concurrent_block")
+				out.Add("ops.concurrent_goroutines", strings.Count(t, "|")+1)
+				out.Add("ops.concurrent_calls", strings.Count(t, "H"))
 			case t[0] == 'P':
 				out.Count("ops.pubDec")
 			case t[0] == 'S':
